@@ -4,23 +4,15 @@ From AC Require Import Base.Sexp Base.Json Base.Strs Gql.InSchema Model.Names Mo
 Import ListNotations.
 Local Open Scope string_scope.
 
-(* ---------- annotation = image of the type, outside finding class F21 ---------- *)
-Lemma nonnull_flag_irrelevant s cs t a b : is_nonnull t = true ->
-  parse_input_field_type s cs t a = parse_input_field_type s cs t b /\
-  image s cs t a = image s cs t b /\ g21 t a = g21 t b.
-Proof. destruct t; simpl; try discriminate. auto. Qed.
-
-Lemma ann_is_image s cs t : forall nb, g21 t nb = true ->
+(* ---------- annotation = image of the type (unguarded since fix 1ef155d) ---------- *)
+Lemma ann_is_image s cs t : forall nb,
   fst (parse_input_field_type s cs t nb) = image s cs t nb.
 Proof.
-  induction t as [n | t IH | t IH]; intros nb G; simpl in *.
+  induction t as [n | t IH | t IH]; intros nb; simpl.
   - destruct (leaf s cs n). reflexivity.
-  - apply andb_true_iff in G as [G1 G2].
-    destruct (parse_input_field_type s cs t nb) as [sl tn] eqn:E. simpl.
-    specialize (IH nb G2). rewrite E in IH. simpl in IH. subst sl.
-    destruct nb; [reflexivity|]. simpl in G1.
-    destruct (nonnull_flag_irrelevant s cs t false true G1) as (_ & H & _). rewrite H. reflexivity.
-  - apply IH. exact G.
+  - specialize (IH true). destruct (parse_input_field_type s cs t true) as [sl tn]. simpl in *.
+    subst sl. reflexivity.
+  - apply IH.
 Qed.
 
 (* the type name reported does not depend on the flag *)
@@ -29,8 +21,7 @@ Lemma type_name_flag s cs t : forall a b,
 Proof.
   induction t as [n | t IH | t IH]; intros a b; simpl.
   - destruct (leaf s cs n); reflexivity.
-  - specialize (IH a b).
-    destruct (parse_input_field_type s cs t a), (parse_input_field_type s cs t b). simpl in *. exact IH.
+  - destruct (parse_input_field_type s cs t true). reflexivity.
   - reflexivity.
 Qed.
 
@@ -44,7 +35,7 @@ Lemma not_opt_when_nonnull s cs t : is_opt (fst (parse_input_field_type s cs t f
 Proof.
   induction t as [n | t IH | t IH]; simpl.
   - pose proof (leaf_not_opt s cs n). destruct (leaf s cs n). exact H.
-  - destruct (parse_input_field_type s cs t false). reflexivity.
+  - destruct (parse_input_field_type s cs t true). reflexivity.
   - exact IH.
 Qed.
 
